@@ -22,7 +22,14 @@ def listFacts : List (String × List Nat × List Nat) := [
   ("requestClass", Generated.requestClass, Expected.requestClass),
   ("encodeClassOutOfRange", Generated.encodeClassOutOfRange, Expected.encodeClassOutOfRange)]
 
+def astFacts : List (String × Nat) := [
+  ("newUsesCryptoRand", Generated.newUsesCryptoRand),
+  ("countedUnderLock", Generated.countedUnderLock),
+  ("dedupAtomic", Generated.dedupAtomic)]
+
 def main : IO Unit := do
+  for (n, g) in astFacts do
+    if g == 0 then IO.println s!"ROW\t{n}\t-1\tgenerated=0 (determinately violated)"
   for (n, g, e) in natFacts do
     if g != e then IO.println s!"ROW\t{n}\t-1\tgenerated={g}\tmodel={e}"
   for (n, g, e) in listFacts do
